@@ -26,6 +26,10 @@ BUILTIN_EXC = {
 }
 
 
+class PathEnded(Exception):
+    """evaluation of a lazily evaluated element raised (the exception path is already recorded): this value path ends"""
+
+
 class State:
     __slots__ = ("frames", "pc", "heap", "ghost", "trace")
 
@@ -670,6 +674,12 @@ class Engine:
                 f = {ast.FloorDiv: floordiv, ast.Div: truediv, ast.Mod: mod}[type(op)]
                 out.append((f(a, b), s2))
             return out
+        if isinstance(op, ast.LShift) and not is_sym(a) and isinstance(a, int) and is_sym(b):
+            self.oblige("shift-amount-in-[0,64]", s, z3.And(b >= 0, b <= 64), kind="safety")
+            r = z3.IntVal(a << 64)
+            for k_ in range(63, -1, -1):
+                r = z3.If(b == k_, z3.IntVal(a << k_), r)
+            return [(r, s)]
         if isinstance(op, ast.Pow):
             if not is_sym(b) and isinstance(b, int) and 0 <= b <= 4:
                 r = 1
@@ -769,11 +779,15 @@ class Engine:
             return Not(r) if isinstance(op, ast.NotEq) else r
         if isinstance(a, tuple) and isinstance(b, tuple):
             # lexicographic comparison of equal-length tuples
-            if len(a) != len(b):
-                raise Unsupported("tuple order comparison of different lengths")
             strict = isinstance(op, (ast.Lt, ast.Gt))
             lt = isinstance(op, (ast.Lt, ast.LtE))
-            res = not strict
+            if len(a) != len(b):
+                # equal common prefix: the shorter tuple is the smaller one
+                n_ = min(len(a), len(b))
+                res = (len(a) < len(b)) if lt else (len(a) > len(b))
+                a, b = a[:n_], b[:n_]
+            else:
+                res = not strict
             for x, y in reversed(list(zip(a, b))):
                 x, y = as_arith(x), as_arith(y)
                 res = Or(x < y if lt else x > y, And(Eq(x, y), res))
@@ -991,7 +1005,10 @@ class Engine:
         for f, s in self.ev(e.func, st):
             for args, s2 in self.ev_seq(e.args, s):
                 for kwargs, s3 in self.ev_kwargs(e.keywords, s2):
-                    res += self.call(f, args, kwargs, s3, e)
+                    try:
+                        res += self.call(f, args, kwargs, s3, e)
+                    except PathEnded:
+                        pass
         return res
 
     def ev_kwargs(self, keywords, st):
@@ -1724,6 +1741,8 @@ def _b_len(eng, s, args, kw):
         raise Unsupported("len of object")
     if isinstance(v, TS):
         return [(v.length(), s)]
+    if isinstance(v, Rec) and v.name == "hexstr":
+        return [(v.f["len"], s)]
     if isinstance(v, Rec):
         return [(len(v.f), s)]
     return [(len(v), s)]
@@ -1871,6 +1890,8 @@ def _b_map(eng, s, args, kw):
 
     def elem(k, st):
         res = eng.call(f, tuple(q.elem(k, st) for q in seqs), {}, st)
+        if len(res) == 0:
+            raise PathEnded()
         if len(res) != 1:
             raise Unsupported("forking function in map")
         return res[0][0]
@@ -1907,11 +1928,23 @@ def _b_round(eng, s, args, kw):
 def _b_int(eng, s, args, kw):
     if args and isinstance(args[0], Rec) and args[0].name == "digits":
         return [(args[0].f["v"], s)]
+    if args and isinstance(args[0], Rec) and args[0].name == "hexstr" and len(args) == 2 and args[1] == 16:
+        return [(args[0].f["val"], s)]
+    if args and isinstance(args[0], Rec) and args[0].name == "junkstr":
+        eng.raise_("ValueError", s)
+        return []
     x = as_arith(args[0]) if args else 0
     if not is_sym(x):
-        if isinstance(x, str) and len(args) > 1:
-            return [(int(x, args[1]), s)]
-        return [(int(x), s)]
+        try:
+            if isinstance(x, str) and len(args) > 1:
+                return [(int(x, args[1]), s)]
+            return [(int(x), s)]
+        except ValueError:
+            eng.raise_("ValueError", s)
+            return []
+        except TypeError:
+            eng.raise_("TypeError", s)
+            return []
     if z3.is_int(x):
         return [(x, s)]
     if z3.is_real(x):
